@@ -1,10 +1,122 @@
-"""Model self-test run by setup.sh (extended as models are added)."""
+"""Self-test of the reference models, run by setup.sh before any check is
+trusted. Uses no pydiffx code: the models are validated against the
+specification document, the specification's example files, literals copied
+from the repository's test-suite, the standard library's json module and
+their own mutual consistency."""
+import glob
+import json
+import os
 import sys
-from mc import spec
+
+from mc import spec, gen
+from mc.alphabets import METAS, TEXTS, DIFFS
+
+
+def check(cond, what):
+    if not cond:
+        print('SELFTEST FAILED: %s' % what)
+        sys.exit(1)
+
 
 def main():
+    # 1. automaton == state tree of the document (+ the one documented edge)
     spec.selfcheck_light()
-    print('selftest ok')
+
+    # 2. the 7 example files are accepted by the strict parser and contain
+    #    only legal, well-ordered sections
+    ex = sorted(glob.glob(os.path.join(spec.REPO, 'docs', 'spec',
+                                       'example-diffs', '*.diff')))
+    check(len(ex) >= 7, 'spec example files present')
+    for p in ex:
+        recs, err = spec.parse(open(p, 'rb').read())
+        check(err is None, 'reference parser accepts %s (%s)'
+              % (os.path.basename(p), err and err.why))
+        check(recs and recs[0]['section'] == 'diffx', 'main section first')
+
+    # 3. literal copied from tests/test_writer.py::test_with_content_utf16
+    calls = [['preamble', 'this is a test\n', None, 4, None, None],
+             ['change', None], ['file', None],
+             ['meta', {'key': 'value'}, None],
+             ['diff', ' ... diff\r\n'.encode('utf-16'), None, 'utf-16',
+              None]]
+    want = (
+        b'#diffx: encoding=utf-16, version=1.0\n'
+        b'#.preamble: indent=4, length=36, line_endings=unix\n'
+        b'    \xff\xfet\x00h\x00i\x00s\x00 \x00i\x00s\x00 \x00a\x00 '
+        b'\x00t\x00e\x00s\x00t\x00\n\x00'
+        b'#.change:\n'
+        b'#..file:\n'
+        b'#...meta: format=json, length=48\n'
+        b'\xff\xfe{\x00\n\x00 \x00 \x00 \x00 \x00"\x00k\x00e\x00y\x00'
+        b'"\x00:\x00 \x00"\x00v\x00a\x00l\x00u\x00e\x00"\x00\n\x00}\x00'
+        b'\n\x00'
+        b'#...diff: encoding=utf-16, length=24, line_endings=dos\n'
+        b'\xff\xfe \x00.\x00.\x00.\x00 \x00d\x00i\x00f\x00f\x00'
+        b'\r\x00\n\x00')
+    got, recs = spec.serialize(calls, 'utf-16')
+    check(got == want, 'serializer reproduces the suite\'s UTF-16 literal')
+
+    # 4. serializer and parser agree with each other on every alphabet entry
+    for name, text in TEXTS:
+        if name == 'misaligned':
+            continue
+        for enc in ('utf-8', 'utf-16', 'utf-32-be'):
+            for indent in (0, 4, 1):
+                for le in (None, 'dos'):
+                    try:
+                        text.encode(enc)
+                    except UnicodeEncodeError:
+                        continue
+                    calls = [['preamble', text, enc, indent, le, None],
+                             ['change', None], ['file', None],
+                             ['meta', {'a': 'x'}, None]]
+                    data, recs = spec.serialize(calls, 'utf-8')
+                    precs, err = spec.parse(data)
+                    check(err is None, 'parse(serialize(%s,%s,%s,%s)): %s'
+                          % (name, enc, indent, le, err and err.why))
+                    check([r.get('text') for r in precs] ==
+                          [r.get('text') for r in recs] and
+                          [r['line'] for r in precs] ==
+                          [r['line'] for r in recs],
+                          'records agree for %s/%s/%s/%s'
+                          % (name, enc, indent, le))
+    for name, obj in METAS:
+        # own pretty printer == the standard library's canonical form
+        check(spec.json_pretty(obj) == json.dumps(
+            obj, indent=4, separators=(',', ': '), sort_keys=True),
+            'json_pretty(%s)' % name)
+    for name, d in DIFFS:
+        for enc in (None, 'utf-16'):
+            calls = [['change', None], ['file', None],
+                     ['meta', {'a': 'x'}, None], ['diff', d, None, enc,
+                                                  None]]
+            data, recs = spec.serialize(calls, 'utf-8')
+            # length framing is self-consistent
+            check(data.endswith(recs[-1]['diff']), 'diff %s framed' % name)
+
+    # 5. generator: canonical rendering == serializer output; every defect
+    #    it produces is rejected by the strict parser
+    calls = [['preamble', 'a\r\nb\r\n', None, 2, 'dos', None],
+             ['meta', {'k': 'é'}, 'utf-16'], ['change', 'latin-1'],
+             ['file', None], ['meta', {'p': 'q'}, None],
+             ['diff', b'x\n', 'text', None, None]]
+    data, recs = spec.serialize(calls, 'utf-8')
+    secs = gen.from_calls(calls, 'utf-8')
+    rdata, rrecs = gen.render(secs)
+    check(rdata == data, 'generator renders canonical bytes')
+    n = 0
+    for label, si, f in gen.defects(secs):
+        s2 = [s.clone() for s in secs]
+        if f(s2) is False:
+            continue
+        ddata, _ = gen.render_defective(s2)
+        precs, err = spec.parse(ddata)
+        check(err is not None, 'defect %s@%d is rejected by the reference'
+              % (label, si))
+        n += 1
+    check(n > 30, 'defect catalogue non-trivial (%d)' % n)
+    print('selftest ok (%d example files, %d defects)' % (len(ex), n))
+
 
 if __name__ == '__main__':
     main()
